@@ -28,6 +28,7 @@ type Job struct {
 	NoNative  bool     // no native replay available for this job
 	Sched     string   // goroutine scheduling policy: "" fifo | lifo | fifo-lastsel
 	TimeoutMs int      // per-query solver timeout
+	Race      bool     // happens-before data-race detection on the interpreted goroutines (race.go)
 	Confirm   string   // native-only entry that amplifies schedule-dependent counterexamples (leaks, deadlocks) for confirmation
 }
 
@@ -44,6 +45,9 @@ func (j Job) String() string {
 	}
 	if j.Sched != "" {
 		s += " sched=" + j.Sched
+	}
+	if j.Race {
+		s += " race"
 	}
 	return s
 }
@@ -243,7 +247,7 @@ var initAllow = []string{
 
 func newEngine(ld *loaded, j *Job) *Engine {
 	eng := &Engine{prog: ld.prog, intrinsics: map[string]intrinsicFn{}, maxSteps: 3000000, funcsSeen: map[string]bool{}, stubsUsed: map[string]bool{},
-		initPkgs: map[string]bool{}, n: j.N, sched: j.Sched}
+		initPkgs: map[string]bool{}, n: j.N, sched: j.Sched, race: j.Race}
 	if j.MaxSteps > 0 {
 		eng.maxSteps = j.MaxSteps
 	}
